@@ -1,2 +1,8 @@
 import MiniconfVerif.Props.C09
 #print axioms MiniconfVerif.C09.level_roundtrip
+#print axioms MiniconfVerif.C09.encode
+#print axioms MiniconfVerif.C09.decode
+#print axioms MiniconfVerif.C09.unique
+#print axioms MiniconfVerif.C09.bounded
+#print axioms MiniconfVerif.C09.widthsAgree_kid
+#print axioms MiniconfVerif.C09.append_stable
